@@ -288,7 +288,9 @@ fn prefixed(lit: &LitSpec, flag: &str) -> LitSpec {
 
 fn keyword(cfg: &GenCfg) -> BoxedStrategy<String> {
     let chars: &'static [char] = if cfg.unicode { STR_CHARS } else { ASCII_CHARS };
-    vec(select(chars), 1..=4).prop_map(|cs| cs.into_iter().collect::<String>()).boxed()
+    // mostly short; now and then long enough for runs of single-edge states of 8, 16 and 32+ bytes
+    let len = prop_oneof![14 => 1usize..=4, 3 => 5usize..=9, 2 => 15usize..=18, 1 => 31usize..=36];
+    len.prop_flat_map(move |n| vec(select(chars), n)).prop_map(|cs| cs.into_iter().collect::<String>()).boxed()
 }
 
 #[derive(Clone, Debug)]
@@ -338,7 +340,11 @@ pub fn def_strategy(cfg: GenCfg) -> BoxedStrategy<DefSpec> {
     ];
     // extension patterns: an existing pattern followed by a tail, as a skip or as another variant - the lexer has to carry an
     // earlier accept (the shorter pattern) through states of the longer one and fall back to it
-    const TAILS: &[&str] = &["[a-z]*", "[ -~]*", "[a-c]+", "x*", "(?:ab)*", "[^\\n]*", "[0-9a-c]*b", "-?", "[ \\n]+"];
+    const TAILS: &[&str] = &[
+        "[a-z]*", "[ -~]*", "[a-c]+", "x*", "(?:ab)*", "[^\\n]*", "[0-9a-c]*b", "-?", "[ \\n]+",
+        // literal tails: the base pattern ends strictly inside a run of single-edge states (8, 17, 41 bytes, multi-byte chars)
+        "abcabcab", "_0123456789abcdef", "_0123456789_0123456789_0123456789_0123456", "日本語日本語日本語日本語", "=>>>[0-9]",
+    ];
     let exts = vec((any::<u8>(), select(TAILS), 0u8..3), 0..=2);
     let shared_prefix = prop::option::weighted(0.12, select(vec![" *", "a*", "[ab]*", "(?:ab)*", "x?"]));
     (vec(pat, 1..=6), vec(skip, 0..=2), prio, vec(any::<bool>(), 6), prop::option::weighted(0.35, exts), shared_prefix)
